@@ -1,9 +1,13 @@
 """C12 - cw20-ics20: channel balance tracks vouchers exactly; error acks change nothing."""
 from ..engine import show, OPTION
-from ..idioms import dispatch, entry_points, loaded_from, nf, walk, response_entries, NF, update_base, order_facts
+from ..idioms import dispatch, entry_points, loaded_from, nf, walk, response_entries, NF, update_base, order_facts, version_literal
 from .icscommon import CRATE, SENDER, items, ack_kind, state_delta, payout_parts
 
 ID = "C12"
+# facts about the released storage formats (CHANGELOG; the source's own constants at the pinned commit): the last release with the
+# v1 configuration layout, and the last release whose send path did not keep the channel balances itself
+LAST_V1_RELEASE = "0.12.0-alpha1"
+LAST_UNTRACKED_RELEASE = "0.13.0"
 RULES = {
     "R12.1": "error acks are clean: ibc_packet_receive turns every error of its worker into an Ok response, so nothing is rolled "
              "back: no path that answers with an error acknowledgement contains a storage write",
@@ -19,7 +23,10 @@ RULES = {
              "and no other sub-message uses that id - so the error acknowledgement produced by `reply` also leaves the books as before",
     "R12.7": "upgrade path: every successful migrate either runs the v2->v3 balance reconciliation (migrations::v2::update_balances) "
              "or has decided, on the stored version, that it is not needed - in particular the v1->v2 conversion does not skip it; "
-             "what the reconciliation computes from live balances is not decided",
+             "what the reconciliation computes from live balances is not decided.  Release boundaries (facts about released "
+             "storage formats, frozen): the reconciliation runs exactly for stored versions <= 0.13.0 (0.13.1 keeps the balances "
+             "itself; re-running it later books tokens the contract merely holds as escrow, skipping it earlier loses the sends in "
+             "flight), the v1->v2 conversion exactly for <= 0.12.0-alpha1",
     "R12.8": "the refund of our own failed / timed-out packet reduces the balance of the channel the packet was sent on "
              "(packet.src.channel_id), for the packet's denom and amount (shared with C11 R11.1)",
     "R12.5": "accounting step: per entry point the channel-state deltas are: transfer +A outstanding and +A total_sent; "
@@ -236,6 +243,12 @@ def check_packets(ctx, ex, it):
 UPDATE_BALANCES = "cw20_ics20::migrations::v2::update_balances"
 
 
+def _semver_key(v):
+    core, _, pre = v.partition("-")
+    nums = tuple(int(x) if x.isdigit() else 0 for x in (core.split(".") + ["0", "0", "0"])[:3])
+    return nums + ((0, pre) if pre else (1, ""))
+
+
 def check_migrate_gate(ctx, eps):
     if "migrate" not in eps or UPDATE_BALANCES not in ctx.facts.bodies:
         ctx.ob("R12.7", "anchor:migrate / v2::update_balances", False, trivial=True, detail="migrate or migrations::v2::update_balances not found")
@@ -269,3 +282,25 @@ def check_migrate_gate(ctx, eps):
                       "this path keeps channel balances that were never reconciled with the sends still in flight"
                       % [show(g)[:120] for g in gates], sample={"decided_not_needed": decided})
     ctx.floor("R12.7", "migrate paths that reconcile", n, 1)
+    # release boundaries: on the paths that reconcile / convert, the version decision is stored <= boundary (non-strict)
+    def stored_version(t):
+        return any(x[0] == "call" and ("get_contract_version" in x[1] or "ensure_from_older_version" in x[1]) for x in walk(t))
+    for what, boundary, hit in (("reconciliation", LAST_UNTRACKED_RELEASE, lambda p: called(p) is not None),
+                                ("v1->v2 conversion", LAST_V1_RELEASE, lambda p: any(e.kind == "prim" and e.name == "Admin::set" for e in p.effects))):
+        seen = None
+        for p in paths:
+            if not hit(p):
+                continue
+            ub = set()
+            for lo, hi, strict, c in order_facts(p.conds):
+                v = version_literal(hi)
+                if v is not None and stored_version(lo) and not strict:
+                    ub.add(v)
+            seen = ub if seen is None else (seen & ub)
+        seen = seen or set()
+        # the tightest upper bound every such path has decided is the step's own gate (a path that converts v1 storage has also
+        # passed the later, higher gates)
+        own = min(seen, key=_semver_key) if seen else None
+        ctx.ob("R12.7", "migrate/%s release boundary" % what, own == boundary,
+               detail="the %s is gated by stored version <= %s; the released storage formats change at %s" % (what, own or sorted(seen), boundary),
+               sample={"boundary": own})
